@@ -175,6 +175,7 @@ extern void (*hx_cb_nest_hook)(void);                      /* called inside ever
 #define DG_COALESCE   1   /* coalesce runs of body / raw header data callbacks            */
 #define DG_MASK_MPH   2   /* mask HTP_MULTI_PACKET_HEAD                                   */
 #define DG_NO_CALLS   4
+#define DG_MASK_PIPE  8   /* mask HTP_CONN_PIPELINED in the final connection flags (schedules differ) */
 void hx_digest(const hx_obs *o, hx_buf *out, int flags);
 void hx_dump_tx(hx_buf *b, htp_tx_t *tx, int deep);
 void hx_first_diff(const hx_buf *a, const hx_buf *b, char *out, size_t outsz);
